@@ -33,6 +33,7 @@ func init() {
 			{Name: "sustained-traffic", N: core.TierN(24, 960), Batch: 6, Run: c04Sustained},
 			{Name: "fixed-consumed-prefix", N: core.TierN(60, 2400), Batch: 10, Run: c04FixedPrefix},
 			{Name: "commit-during-cleaner-evaluation", N: core.TierN(80, 3200), Batch: 10, Run: c04DuringCleaner},
+			{Name: "configured-during-first-use", N: core.TierN(12, 480), Batch: 3, Run: c04FirstUse},
 		},
 	})
 }
@@ -717,4 +718,53 @@ func c04DuringCleaner(c *core.Ctx) {
 		c.R.WinMissed++
 	}
 	c.Sig("during-cleaner", nCons, cooldown, action, duringEval, window)
+}
+
+// c04FirstUse: SetCleanerConfig(FixedBufferCleaner) is the first call on a zero-value Buffer and races other first
+// calls. It returned nil, so the configuration is in force: the quiescent size is at most max.
+func c04FirstUse(c *core.Ctx) {
+	n := 400
+	if c.Thorough() {
+		n = 1000
+	}
+	type made struct {
+		b   *bigbuff.Buffer
+		max int
+	}
+	var all []made
+	for i := 0; i < n; i++ {
+		b := new(bigbuff.Buffer)
+		max := 1 + c.Rng.IntN(4)
+		var serr error
+		cfg := bigbuff.CleanerConfig{Cleaner: bigbuff.FixedBufferCleaner(max, c.Rng.IntN(max+1), nil), Cooldown: time.Duration(c.Rng.IntN(2)) * 200 * time.Microsecond}
+		calls := []func(){
+			func() { serr = b.SetCleanerConfig(cfg) },
+			func() { b.Size() }, func() { b.Slice() }, func() { b.Size() },
+		}
+		calls = calls[:2+c.Rng.IntN(3)]
+		c.Rng.Shuffle(len(calls), func(i, j int) { calls[i], calls[j] = calls[j], calls[i] })
+		raceFirstCalls(b, calls...)
+		if serr != nil {
+			c.Violate("setcleanerconfig-error", "%v", serr)
+			return
+		}
+		for j := 0; j < 10; j++ {
+			b.Put(context.Background(), j)
+		}
+		all = append(all, made{b, max})
+	}
+	bad := 0
+	for i, m := range all {
+		var sz int
+		if !core.WaitUntil(c04Bound(time.Millisecond), func() bool { sz = m.b.Size(); return sz <= m.max }) {
+			bad++
+			if bad <= 3 {
+				c.Violate("fixed-not-trimmed", "buffer #%d: SetCleanerConfig(FixedBufferCleaner(max=%d,...)) returned nil while racing other first calls, 10 values were put, and the quiescent size is %d", i, m.max, sz)
+			}
+		}
+		m.b.Close()
+	}
+	c.Op("first_use_race", n)
+	c.Nontrivial()
+	c.Sig("first-use-config", c.Index)
 }
